@@ -1667,13 +1667,14 @@ func c17Kept(r *rng, st *stats, seed uint64, c int) {
 		for _, x := range vars {
 			sb.WriteString(x.decl + "\n")
 		}
-		sb.WriteString("var reset int = 3\n\ntype I interface {\n\tM(a int) int\n}\n\ntype T struct {\n\tid int\n}\n\ntype U struct {\n\tw int\n}\n\n")
+		sb.WriteString("var reset int = 3\nvar rz int = 0\nvar rs string = \"\"\nvar rb bool = false\nvar rf float64 = 0.0\nvar ru uint8 = 0\nvar rq = 0\n\ntype I interface {\n\tM(a int) int\n}\n\ntype T struct {\n\tid int\n}\n\ntype U struct {\n\tw int\n}\n\n")
 		fmt.Fprintf(&sb, "func f(a int) int {\n\treturn a + %d\n}\n\nfunc (t *T) M(a int) int {\n\treturn t.id + a\n}\n\nfunc (u U) M(a int) int {\n\treturn u.w * a\n}\n\n", v)
-		sb.WriteString("func Set() {\n\treset = 8\n")
+		// variables WITH an initialiser that happens to be the zero value of the type are re-initialised like any other
+		sb.WriteString("func Set() {\n\treset = 8\n\trz = 5\n\trs = \"x\"\n\trb = true\n\trf = 2.5\n\tru = 9\n\trq = 4\n")
 		for _, x := range vars {
 			sb.WriteString("\t" + x.set + "\n")
 		}
-		sb.WriteString("}\n\nfunc Show() {\n\tfmt.Println(reset)\n")
+		sb.WriteString("}\n\nfunc Show() {\n\tfmt.Println(reset, rz, \"[\"+rs+\"]\", rb, rf, ru, rq)\n")
 		for _, x := range vars {
 			sb.WriteString("\tfmt.Println(" + x.show + ")\n")
 		}
@@ -1718,7 +1719,7 @@ func c17Kept(r *rng, st *stats, seed uint64, c int) {
 	if !step("Show()", func() error { _, err := vm.Call("p.Show", 0); return err }) {
 		return
 	}
-	want := "3\n"
+	want := "3 0 [] false 0 0 0\n"
 	for _, x := range vars {
 		want += x.want + "\n"
 	}
@@ -1733,7 +1734,7 @@ func c17Kept(r *rng, st *stats, seed uint64, c int) {
 		for i := range wl {
 			if i >= len(gl) || gl[i] != wl[i] {
 				if i == 0 {
-					which = "var reset int = 3 (must be reset to its initialiser)"
+					which = "var reset int = 3; var rz int = 0; var rs string = \"\"; var rb bool = false; var rf float64 = 0.0; var ru uint8 = 0; var rq = 0 (each must be reset to its initialiser)"
 				} else if i-1 < len(vars) {
 					which = vars[i-1].decl + " after `" + vars[i-1].set + "` (must keep its value)"
 				}
